@@ -48,12 +48,37 @@ type Plan struct {
 	// goroutines (it prepares each request's context); the registered class is one no fixture uses,
 	// so the documents are the same as without it.
 	Middleware bool `json:"middleware,omitempty"`
+	// ViaHandler: every render is a request served by templ.Handler in buffered mode (it renders
+	// into the root package's pooled byte buffer); a render with a failing writer becomes a
+	// component that fails after that many bytes, i.e. a failed request.
+	ViaHandler bool `json:"via_handler,omitempty"`
+}
+
+type limitWriter struct {
+	w    io.Writer
+	left int
+}
+
+func (l *limitWriter) Write(p []byte) (int, error) {
+	if len(p) > l.left {
+		n, _ := l.w.Write(p[:l.left])
+		l.left = 0
+		return n, errW
+	}
+	l.left -= len(p)
+	return l.w.Write(p)
+}
+
+func failAfter(c templ.Component, k int) templ.Component {
+	return templ.ComponentFunc(func(ctx context.Context, w io.Writer) error {
+		return c.Render(ctx, &limitWriter{w: w, left: k})
+	})
 }
 
 type renderJobKey struct{}
 
 var rec = ev.New("C14", "c14.concurrent",
-	"plans of 2..16 goroutines x 1..6 renders over a table of compiled fixture components (text/attribute sinks with control flow, script elements with Go values, css components, script templates, once handles, wrapper components with child blocks, JSON script), each render with its own context and writer (fast, yielding every w bytes, chunked, failing at byte k, or the goroutine's own long-lived bufio.Writer), GOMAXPROCS 1, 2 or 16, component values created per render or shared by all goroutines, in a quarter of the plans every render being a request through one shared templ.NewCSSMiddleware; the test binary is built with -race. "+
+	"plans of 2..16 goroutines x 1..6 renders over a table of compiled fixture components (text/attribute sinks with control flow, script elements with Go values, css components, script templates, once handles, wrapper components with child blocks, JSON script), each render with its own context and writer (fast, yielding every w bytes, chunked, failing at byte k, or the goroutine's own long-lived bufio.Writer), GOMAXPROCS 1, 2 or 16, component values created per render or shared by all goroutines, in a quarter of the plans every render being a request through one shared templ.NewCSSMiddleware, in another quarter a request served by templ.Handler in buffered mode (failing writers become failing components there); the test binary is built with -race. "+
 		"Oracle: no data race report (the race detector fails the process), every successful render equals the sequential reference of that component byte for byte, every failed one is a prefix of it and returns the writer's error. "+
 		"Non-trivial = >=2 goroutines render the same component with at least one failing writer among them; distinct by plan. Schedules are sampled by the Go scheduler, not enumerated")
 
@@ -161,6 +186,21 @@ func decide(p Plan) error {
 			job := func(ctx context.Context) { err = c.Render(ctx, w) }
 			req := httptest.NewRequest("GET", "/page", nil)
 			mw.ServeHTTP(httptest.NewRecorder(), req.WithContext(context.WithValue(req.Context(), renderJobKey{}, job)))
+			return err
+		}
+	}
+	if p.ViaHandler {
+		render = func(c templ.Component, w io.Writer) error {
+			comp := c
+			if pw, ok := w.(*planWriter); ok && pw.r.FailAt >= 0 {
+				comp = failAfter(c, pw.r.FailAt)
+			}
+			rec := httptest.NewRecorder()
+			templ.Handler(comp).ServeHTTP(rec, httptest.NewRequest("GET", "/page", nil))
+			if rec.Code != http.StatusOK {
+				return errW // the request failed: nothing of the document may be used
+			}
+			_, err := w.Write(rec.Body.Bytes())
 			return err
 		}
 	}
@@ -309,6 +349,7 @@ func TestPropConcurrent(t *testing.T) {
 			SharedCtx:  rapid.Bool().Draw(t, "sharedValues"),
 			EmptyPools: rapid.Bool().Draw(t, "emptyPools"),
 			Middleware: rapid.IntRange(0, 3).Draw(t, "middleware") == 0,
+			ViaHandler: rapid.IntRange(0, 3).Draw(t, "viaHandler") == 0,
 		}
 		rec.Eval(1)
 		if nontrivial(p) {
